@@ -40,6 +40,7 @@ DEFAULT_CONFIG = {
     "stdout": {"kind": "memory"},
     "logger": {"kind": "default"},
     "warnings": {"kind": "always"},
+    "numpy_print": {"kind": "default"},
 }
 
 LATENCY = {"disk": 2e-5, "solver": 1e-3, "stdout": 1e-5}
@@ -640,6 +641,15 @@ class World:
             from scipy.sparse.linalg import MatrixRankWarning
 
             warnings.filterwarnings("error", category=MatrixRankWarning)
+        # S8 (continued): process-global numpy print options, as a host program may have set them
+        self._np_print = np.get_printoptions()
+        kind = self.config.get("numpy_print", {}).get("kind", "default")
+        if kind == "precision3":
+            np.set_printoptions(precision=3, suppress=True)
+        elif kind == "formatter":
+            np.set_printoptions(formatter={"float": "{: 0.3f}".format, "float_kind": "{: 0.3f}".format})
+        elif kind == "threshold":
+            np.set_printoptions(threshold=3, edgeitems=1, linewidth=40)
         self._installed = True
         return self
 
@@ -647,6 +657,7 @@ class World:
         gg = self._gg
         ssl = self._ssl
         s = self._saved
+        np.set_printoptions(**self._np_print)
         self._wctx.__exit__(None, None, None)
         lg = logging.getLogger("graphslam")
         lgg = logging.getLogger("graphslam.graph")
